@@ -86,6 +86,11 @@ def check_grad(ctx, cell, case):
     cell = cell or {"stage": name, "dtype": "complex" if cplx else "real"}
     rng = np.random.RandomState(case.get("seed", ctx.seed))
     x = gen_input(shape, cplx, scale, rng, mode)
+    if case.get("zero_item") and len(shape) >= 2 and shape[0] >= 2:
+        # one batch item exactly zero (a black image, a silent user): the constraint's special path for zero signals must not poison the
+        # gradients of the batch (only finiteness is asked for: the map is not differentiable AT zero)
+        with torch.no_grad():
+            x[1] = 0
     mod = fac()
     f = seeded(lambda t: mod(t), 4242 + case.get("seed", ctx.seed))
     ok, y = ctx.call(lambda: f(x), "C19.raises", cell, case, checker=CHK)
@@ -104,6 +109,9 @@ def check_grad(ctx, cell, case):
         ctx.fail("C19.d_requires_grad", cell, case, "None gradient", "gradient", "no gradient flows from the stage output to its input", CHK)
         return
     ctx.check(bool(torch.isfinite(torch.view_as_real(g) if g.is_complex() else g).all()), "C19.d_finite", cell, case, None, None, "gradient contains NaN/inf", CHK)
+    if case.get("zero_item"):
+        ctx.cls("grad_zero_item_cases")
+        return
     if mode == "gradcheck_papr":
         # The PAPR map is piecewise smooth (clipping masks and the iteration count are locally constant away from
         # kinks): where clipping is active it is compared by central differences with a kink guard - the numeric
@@ -174,6 +182,10 @@ def unit_grads(ctx, names):
                 for scale in (0.3, 1.0, 5.0) if mode != "gradcheck_peak" else (1.0,):
                     for es in extra_seeds:
                         check_grad(ctx, None, {"stage": name, "complex": cplx, "shape": list(shape), "scale": scale, "seed": ctx.seed + 1000 * es})
+            if name in ("total_power", "average_power", "per_antenna_power", "peak_amplitude") or name.startswith("papr"):
+                zshape = (3, 2, 6) if name == "per_antenna_power" else (3, 8)
+                check_grad(ctx, {"stage": name, "dtype": "complex" if cplx else "real", "mode": "zero_item_in_batch"},
+                           {"stage": name, "complex": cplx, "shape": list(zshape), "scale": 1.0, "seed": ctx.seed, "zero_item": True})
     ctx.sample({"stages": names, "method": "gradcheck eps=1e-6 / central differences eps=1e-2, RNG re-seeded before every call"})
 
 
